@@ -115,7 +115,7 @@ def gen_raw_cases(ctx):
                 "dof": [rng.randrange(0, 7) for _ in range(n)]}
 
     # exhaustive: every sequence of L merges over every admissible endpoint pair (incl. -1 and self-pairs)
-    plan = [(1, 2), (2, 3), (3, 2)] + ([(2, 4), (3, 3), (3, 4), (4, 3)] if thorough else [])
+    plan = [(1, 2), (2, 3), (3, 2)] + ([(2, 4), (3, 3), (4, 3)] if thorough else [])
     for n, L in plan:
         pairs = [(a, b) for a in range(-1, n) for b in range(-1, n) if not (a == -1 and b == -1)]
         cnt = 0
